@@ -154,6 +154,34 @@ def _patched_solve():
     return orig, rec
 
 
+def _guard(fails, label, f):
+    """an exception escaping a well-nested history (other than the test's own Boom) is a failure of the property"""
+    try:
+        f()
+    except Exception as e:      # noqa: BLE001
+        fails.append(f'{label}: a well-nested history raised {type(e).__name__}: {str(e)[:80]}')
+
+
+def _nested(Config, defaults, fails):
+    for inner_raises in (False, True):
+        v1, v2 = _values(np.random.default_rng(1)), _values(np.random.default_rng(2))
+        before = Config.instance()
+        try:
+            with Config(solver=v1['solver'], solver_throw=True) as outer:
+                with Config(solver_throw=False, solver_options=v2['solver_options']) as inner:
+                    if inner.solver is not v1['solver'] or inner.solver_throw is not False or \
+                            inner.solver_options != v2['solver_options']:
+                        fails.append('nested: inner block does not inherit the outer settings / override the named ones')
+                    if inner_raises:
+                        raise Boom()
+                if Config.instance() is not outer:
+                    fails.append('nested: leaving the inner block does not restore the outer configuration')
+        except Boom:
+            pass
+        if Config.instance() is not before:
+            fails.append(f'nested (inner raises: {inner_raises}): leaving the outer block does not restore the initial configuration')
+
+
 def history(w, seed, spec):
     from furax import Config
     from furax._base.config import ConfigState
@@ -170,9 +198,11 @@ def history(w, seed, spec):
         rng = np.random.default_rng(seed)
         named = [f for f in (w.get('named') or []) if f in FIELDS]
         r = Runner(rng, fails, 'witness: ')
-        r.block(defaults, 1, forced=named)
+        _guard(fails, 'witness', lambda: r.block(defaults, 1, forced=named))
         if w.get('named_inner') is not None:
-            r.block(defaults, 1, forced=[f for f in w['named_inner'] if f in FIELDS])
+            _guard(fails, 'witness (inner)', lambda: r.block(defaults, 1, forced=[f for f in w['named_inner'] if f in FIELDS]))
+        # depth-2 nesting, normal and raising exits, deterministic
+        _guard(fails, 'nested', lambda: _nested(Config, defaults, fails))
         try:
             Config(no_such_setting=1)
             fails.append('Config(no_such_setting=...) accepted')
@@ -181,10 +211,13 @@ def history(w, seed, spec):
         # seeded family of histories
         for i in range(12):
             rr = Runner(np.random.default_rng(seed * 1000 + i), fails, f'history {i}: ')
-            for _ in range(3):
-                rr.block(defaults, 1)
-            rr.create(defaults)
-            rr.apply()
+
+            def one(rr=rr):
+                for _ in range(3):
+                    rr.block(defaults, 1)
+                rr.create(defaults)
+                rr.apply()
+            _guard(fails, f'history {i}', one)
             if not _same(_as_dict(Config.instance()), defaults):
                 fails.append(f'history {i}: does not end with the defaults')
             if len(fails) > 5:
